@@ -2,7 +2,7 @@
 # round 2: validate new seeded defects (k=3,4) and run their checks
 for ID in "$@"; do
   ./seedauto.sh $ID >> .work/seedcheck-r2.log 2>&1
-  for k in 3 4 5 6; do
+  for k in 3 4 5 6 7 8; do
     d=seeded/$ID-$k
     [ -d $d ] || continue
     P=$d/patch.diff; [ -f $d/patch.rebased.diff ] && P=$d/patch.rebased.diff
